@@ -11,6 +11,9 @@
 (*   Embed    {kind, got, want}                                            *)
 (*   ChildBind{pre, child}           child = name of a stored envelope     *)
 (*   Sign     {inp, out, action, key, ktype, alg, kid, written, e}         *)
+(*   Recursive{written, nodes}       sign recursive over a hierarchy       *)
+(*   RawSig   {alg, width, verifies} one KMS signature (C04 fixed width)   *)
+(*   Extract  {mode, ...}            cache_create from_envelope / extract  *)
 (*   Same     {a, b, what}           two stored envelopes agree on `what`  *)
 (***************************************************************************)
 EXTENDS Envelope, Extract, Json, IOUtils
@@ -29,7 +32,9 @@ Judge(s, e) ==
     [] e.ev = "ChildBind" -> (IF ~Has(s, e.child) THEN "UnknownArtifact" ELSE ChildBindJudge(e.pre, s.envs[e.child]))
     [] e.ev = "Sign"      -> (IF ~Has(s, e.inp) THEN "UnknownArtifact"
                               ELSE SignJudge(s.envs[e.inp], e.action, e.key, e.ktype, e.alg, e.kid, e.written, e.e))
-    [] e.ev = "Recursive" -> (IF ~Has(s, e.inp) THEN "UnknownArtifact" ELSE RecursiveJudge(e))
+    [] e.ev = "Recursive" -> RecursiveJudge([e EXCEPT !.nodes = [i \in 1..Len(e.nodes) |-> [e.nodes[i] EXCEPT !.namedk = Range(@)]]])
+    [] e.ev = "RawSig"    -> (IF ~e.verifies THEN "SignatureVerifiesUnderMatchingKey"
+                              ELSE IF e.width # SigWidth(e.alg) THEN "EcdsaFixedWidth" ELSE "ok")
     [] e.ev = "Extract"   -> ExtractJudge(e)
     [] e.ev = "Same"      -> (IF ~Has(s, e.a) \/ ~Has(s, e.b) THEN "UnknownArtifact" ELSE SameJudge(s.envs[e.a], s.envs[e.b], e.what))
     [] OTHER              -> "UnknownEvent"
